@@ -64,6 +64,14 @@ func (g *gen) cfg(i int) Cfg {
 		a := App{Name: n, Tag: (i+1)*4 + n}
 		a.Listen = g.listen(used, 3)
 		a.Mods = g.mods(3)
+		if n == 3 && g.rng.Chance(2, 5) {
+			// real reverse proxies; few distinct upstreams so that configs share them
+			for k := 1 + g.rng.Intn(2); k > 0 && len(a.Mods) < 4; k-- {
+				rp := Mod{0, 4 + g.rng.Intn(2)}
+				at := g.rng.Intn(len(a.Mods) + 1)
+				a.Mods = append(a.Mods[:at:at], append([]Mod{rp}, a.Mods[at:]...)...)
+			}
+		}
 		c.Apps = append(c.Apps, a)
 	}
 	if g.rng.Chance(g.prof.Logs, 100) {
@@ -122,7 +130,11 @@ func (g *gen) inject(c *Cfg, e *Env) {
 			if len(a.Mods) == 0 {
 				a.Mods = []Mod{{0, g.rng.Intn(4)}}
 			}
-			a.Mods[g.rng.Intn(len(a.Mods))].Fault = 1 + g.rng.Intn(4)
+			m := &a.Mods[g.rng.Intn(len(a.Mods))]
+			m.Fault = 1 + g.rng.Intn(4)
+			if m.IsRp() {
+				m.Fault = 2 + g.rng.Intn(3)
+			}
 			return
 		case 6, 7: // a listener cannot bind
 			var all []int
@@ -206,7 +218,9 @@ func (g *gen) history(maxLen int) []Op {
 					g.inject(&one, &e)
 					one.Top, one.Logs = 0, nil
 				}
+				renamed := false
 				if g.rng.Chance(1, 10) {
+					renamed = true
 					one.Apps[0].Name = g.rng.Intn(4) // maybe not there
 					if one.Apps[0].Name == 3 && one.Apps[0].Fault != 0 && one.Apps[0].Fault != 2 {
 						one.Apps[0].Fault = 0
@@ -216,7 +230,7 @@ func (g *gen) history(maxLen int) []Op {
 					}
 				}
 				ops = append(ops, Op{Kind: 'P', App: one.Apps[0], Env: e})
-				if e.Blocked == nil && !e.Post && one.Apps[0].Fault == 0 {
+				if !renamed && e.Blocked == nil && !e.Post && one.Apps[0].Fault == 0 {
 					nc.Apps[j] = one.Apps[0]
 					last = &nc
 				}
@@ -252,13 +266,13 @@ func (g *gen) history(maxLen int) []Op {
 func (g *gen) enumerated() [][]Op {
 	base := Cfg{Apps: []App{
 		{Name: 0, Tag: 1, Listen: []int{0, 1}, Mods: []Mod{{0, 0}, {0, 1}}},
-		{Name: 3, Tag: 2, Listen: []int{2, 3}, Mods: []Mod{{0, 0}, {0, 2}}},
+		{Name: 3, Tag: 2, Listen: []int{2, 3}, Mods: []Mod{{0, 0}, {0, 4}, {0, 2}}},
 	}}
 	next := func() Cfg {
 		return Cfg{Logs: []Mod{{0, 1}}, Apps: []App{
 			{Name: 0, Tag: 5, Listen: []int{0, 4}, Mods: []Mod{{0, 0}, {0, 1}}},
 			{Name: 1, Tag: 6, Listen: []int{5}, Mods: []Mod{{0, 3}}},
-			{Name: 3, Tag: 7, Listen: []int{2, 6}, Mods: []Mod{{0, 2}, {0, 0}}},
+			{Name: 3, Tag: 7, Listen: []int{2, 6}, Mods: []Mod{{0, 2}, {0, 4}, {0, 0}}},
 		}}
 	}
 	var out [][]Op
@@ -295,6 +309,9 @@ func (g *gen) enumerated() [][]Op {
 		for mi := range next().Apps[ai].Mods {
 			for f := 1; f <= 4; f++ {
 				c := next()
+				if c.Apps[ai].Mods[mi].IsRp() && f == 1 {
+					continue
+				}
 				c.Apps[ai].Mods[mi].Fault = f
 				add(c, Env{})
 			}
